@@ -218,7 +218,16 @@ func (e *engine) peerIDCases() {
 				mon = "ValidatePeerID disagrees with ParsePeerID"
 			}
 		}
+		if mon == "" && impl == "err" && confparse.ValidatePeerID(s) == nil {
+			mon = "ValidatePeerID accepts a string that ParsePeerID rejects"
+		}
 		e.rep.Compare(op, model, canonPanic(impl), "peerId."+head(model), "config.peerId", mon)
+		e.validatePeerIDCase(s)
+	}
+	for _, s := range append(append([]string{"", "11"}, bads...), ids...) {
+		e.validatePeerIDCase(s)
+		e.validatePeerIDCase(s + "1")
+		e.validatePeerIDCase(" " + s)
 	}
 	// lists
 	for i := 0; i < 180*e.a.Scale; i++ {
@@ -345,9 +354,13 @@ func (e *engine) tptAddrCases() {
 
 func (e *engine) peerAddrMapCases() {
 	var ids []string
+	var rawIDs []peer.ID
 	for i := 0; i < 3; i++ {
-		ids = append(ids, b58.Encode(e.newKey().id))
+		id := e.newKey().id
+		ids = append(ids, b58.Encode(id))
+		rawIDs = append(rawIDs, peer.ID(id))
 	}
+	absent := peer.ID(e.newKey().id)
 	addrs := []string{"udp|1.2.3.4:5", "udp|1.2.3.4:6", "ws|host/path", "a|", "|", "b|c|d", "Udp|1.2.3.4:5", "udp|1.2.3.4:50", "é|x", "u|\xff"}
 	for i := 0; i < 450*e.a.Scale; i++ {
 		var l []string
@@ -441,6 +454,15 @@ func (e *engine) peerAddrMapCases() {
 			br = "peerAddrMap.merged"
 		}
 		e.rep.Compare(op, model, canonPanic(impl), br, "config.peerAddrMap", mon)
+
+		// the consumer: every peer of the universe (present in this list or not), a peer that is in no
+		// list, and the same peers again through IDs decoded from their text form
+		query := append([]peer.ID(nil), rawIDs...)
+		query = append(query, absent)
+		if i%3 == 0 {
+			query = append(query, peer.ID(e.newKey().id))
+		}
+		e.staticCtlCase(l, want, wantErrs, query, i%25 == 0)
 	}
 }
 
@@ -765,6 +787,7 @@ func (e *engine) runC38() {
 		"protoId.ok", "protoId.err.empty", "protoId.ok.empty", "protoId.err.badutf8", "protoIds.ok", "protoIds.err", "protoIdsUnique.ok", "protoIdsUnique.err",
 		"peerId.ok", "peerId.err", "peerIds.ok", "peerIds.err", "peerIdsUnique.ok", "peerIdsUnique.err",
 		"tptAddr.ok", "tptAddr.err", "peerAddrMap", "peerAddrMap.errs", "peerAddrMap.merged",
+		"validatePeerId.1", "validatePeerId.0.parse-rejects", "validatePeerId.0.empty", "staticCtl.ok", "staticCtl.err", "staticCtl.bus",
 		"duration.ok", "duration.err", "marshalDuration", "marshalDuration.zero",
 		"timestamp.ok", "timestamp.oknil", "timestamp.err", "marshalTimestamp.nanos", "marshalTimestamp.whole", "marshalTimestamp.out-of-range", "marshalTimestamp.nil",
 		"url.ok", "url.oknil", "url.err", "validateUrl.ok", "validateUrl.err", "urls.ok", "urls.err", "regexp.ok", "regexp.oknil", "regexp.err",
@@ -776,4 +799,5 @@ func (e *engine) runC38() {
 	e.durationCases()
 	e.timestampCases()
 	e.urlCases()
+	e.runC38History()
 }
